@@ -1146,6 +1146,21 @@ class _Walker:
                 cands = [x for x in cands if x.cls in allowed]
         if cands and (name in M_CONTAINER_ADD or name in M_CONTAINER_OTHER) and self._is_py_container(c.func.value):
             cands = []
+        if len(cands) > 1 and not has_star:
+            # methods of one name in several classes: the ones that cannot take this call (too many positional arguments,
+            # an unknown keyword) are not the target
+            def takes(callee):
+                ps = list(callee.params)
+                if callee.kind in ('method', 'classmethod') and ps:
+                    ps = ps[1:]
+                if len(c.args) > len(ps) and not callee.vararg:
+                    return False
+                if any(k.arg is not None and k.arg not in ps and k.arg not in callee.kwonly for k in c.keywords) and not callee.kwarg:
+                    return False
+                return True
+            fit = [x for x in cands if takes(x)]
+            if fit:
+                cands = fit
         if cands:
             self.e.n_resolved += 1
             self.s.callees.update(cands)
